@@ -183,14 +183,17 @@ class SchemaVisitor(object):
             )
         return directive
 
-    on_field_definition = deprecated(
-        "This method has been deprecated, use on_field instead."
-    )(on_field)
+    # The deprecated names go through the (possibly overridden) new ones.
+    @deprecated("This method has been deprecated, use on_field instead.")
+    def on_field_definition(self, field: Field) -> Optional[Field]:
+        return self.on_field(field)
 
-    on_input_field_definition = deprecated(
-        "This method has been deprecated, use on_input_field instead."
-    )(on_input_field)
+    @deprecated("This method has been deprecated, use on_input_field instead.")
+    def on_input_field_definition(
+        self, field: InputField
+    ) -> Optional[InputField]:
+        return self.on_input_field(field)
 
-    on_argument_definition = deprecated(
-        "This method has been deprecated, use on_argument instead."
-    )(on_argument)
+    @deprecated("This method has been deprecated, use on_argument instead.")
+    def on_argument_definition(self, arg: Argument) -> Optional[Argument]:
+        return self.on_argument(arg)
